@@ -105,26 +105,7 @@ def run(ctx, rep):
                 ws = [w for w in pb.calls if w.name == PT + '::write_with_retries']
                 ok = bool(ws) and any(success_dominates(pb, w, c.bb) for w in ws)
                 rep.ob('R12.b', ctx.user_fn_of(d), 'publish after write (background persister)', ok, c.where(), None if ok else 'the background persister publishes the size before/without a successful write')
-    # the amount published by the background persister is what it wrote: header + payload (the waiting writer publishes get_size_bytes())
-    amts = []
-    for d in [x for x in ctx.facts.body_defs() if x.startswith(PT + '::run')]:
-        pb_ = ctx.body(d)
-        for c in pb_.calls:
-            if c.name.endswith('Atomic::fetch_add') and is_user_call(c) and render(pb_.expr_operand(c.args[0])).endswith('log_file_size'):
-                amts.append((canon(pb_.pexpr_operand(c.args[1], 0, frozenset(), (c.bb, 't')), 0, 1), c.where()))
-    oka = bool(amts) and all(a.startswith('PersisterTask::write_with_retries(') for a, _ in amts)
-    rep.ob('R12.b', PT + '::run', 'published amount = bytes written', oka, amts[0][1] if amts else None, None if oka else 'the background persister publishes `%s`' % [a for a, _ in amts])
-    rets = set()
-    for d in [x for x in ctx.facts.body_defs() if x.startswith(PT + '::write_with_retries')]:
-        wb_ = ctx.body(d)
-        for blk in sorted(wb_.reach):
-            for si, st in enumerate(wb_.stmts(blk)):
-                rv = st.get('rv') or {}
-                if st.get('lhs') == [0] and rv.get('r') == 'agg' and rv.get('variant') == 'Ok':
-                    rets.add(canon(wb_._pexpr_rvalue(rv, 0, frozenset(), (blk, si)), 0, 3))
-    okr = rets == {'(24 + Bytes::len(batch_to_write.bytes))'} or rets == {'(Bytes::len(batch_to_write.bytes) + RETAINED_BATCH_HEADER_LEN)'}
-    rep.ob('R12.b', PT + '::write_with_retries', 'returns header + payload length', okr, None, str(sorted(rets)) if okr else
-           'write_with_retries reports %s as written; the file grew by the 24-byte header plus the payload, so the published size falls behind the file and the last batch stays unreadable' % sorted(rets))
+    persister_amounts(ctx, rep, 'R12.b')
 
     IW = 'server::streaming::segments::indexes::index_writer::SegmentIndexWriter::save_index'
     ib = ctx.fn_body(IW)
@@ -183,3 +164,35 @@ def run(ctx, rep):
                None if got == want else 'the cache queue is operated with %s here (confirmed: %s): elements must enter at the back and leave at the front, otherwise cached offsets are no longer a contiguous run' % (got, want))
     for fn in sorted(set(ops) - set(CACHE_OPS)):
         rep.ob('R12.c', fn, 'unlisted cache queue user', False, None, 'a new function operates the cache queue with %s' % ops[fn])
+
+    # ------------------------------------------------------------ R12.e one offset per message, also after a restart
+    from props.c01 import offset_assignment
+    offset_assignment(ctx, rep, 'R12.e', 'R12.e')
+    rep.rules['R12.e']['desc'] = 'no message is given a shared offset and none is skipped: the offset state of partitions and segments has its confirmed writers and forms (current offset, end offset, and the index position a reloaded segment appends at), every message gets base + running count of accepted messages in both append loops'
+    rep.rules['R12.e']['floor'] = 16
+    sf.check(ctx, rep, 'R12.e', part_fields=(), seg_fields=('last_index_position',))
+
+
+def persister_amounts(ctx, rep, rid):
+    """shared with C02: every read is bounded by the published log size, so the amount the background persister publishes must be what it wrote"""
+    from props.c04 import PT
+    # the amount published by the background persister is what it wrote: header + payload (the waiting writer publishes get_size_bytes())
+    amts = []
+    for d in [x for x in ctx.facts.body_defs() if x.startswith(PT + '::run')]:
+        pb_ = ctx.body(d)
+        for c in pb_.calls:
+            if c.name.endswith('Atomic::fetch_add') and is_user_call(c) and render(pb_.expr_operand(c.args[0])).endswith('log_file_size'):
+                amts.append((canon(pb_.pexpr_operand(c.args[1], 0, frozenset(), (c.bb, 't')), 0, 1), c.where()))
+    oka = bool(amts) and all(a.startswith('PersisterTask::write_with_retries(') for a, _ in amts)
+    rep.ob(rid, PT + '::run', 'published amount = bytes written', oka, amts[0][1] if amts else None, None if oka else 'the background persister publishes `%s`' % [a for a, _ in amts])
+    rets = set()
+    for d in [x for x in ctx.facts.body_defs() if x.startswith(PT + '::write_with_retries')]:
+        wb_ = ctx.body(d)
+        for blk in sorted(wb_.reach):
+            for si, st in enumerate(wb_.stmts(blk)):
+                rv = st.get('rv') or {}
+                if st.get('lhs') == [0] and rv.get('r') == 'agg' and rv.get('variant') == 'Ok':
+                    rets.add(canon(wb_._pexpr_rvalue(rv, 0, frozenset(), (blk, si)), 0, 3))
+    okr = rets == {'(24 + Bytes::len(batch_to_write.bytes))'} or rets == {'(Bytes::len(batch_to_write.bytes) + RETAINED_BATCH_HEADER_LEN)'}
+    rep.ob(rid, PT + '::write_with_retries', 'returns header + payload length', okr, None, str(sorted(rets)) if okr else
+           'write_with_retries reports %s as written; the file grew by the 24-byte header plus the payload, so the published size falls behind the file and the last batch stays unreadable' % sorted(rets))
